@@ -155,7 +155,15 @@ pub fn new_decoder(e: &Enc, bom: BomMode) -> Decoder {
     }
 }
 
-const GUARD: usize = 32;
+/// Guard band (elements) on both sides of every slice destination: 32 normally, 1024 in the
+/// repetition after a crash of the harness process (VERIF_SLICE_SINKS_ONLY), so that a stray
+/// write far beyond the destination lands in the band instead of the allocator's metadata.
+#[allow(non_snake_case)]
+fn GUARD() -> usize {
+    use std::sync::OnceLock;
+    static G: OnceLock<usize> = OnceLock::new();
+    *G.get_or_init(|| if std::env::var("VERIF_SLICE_SINKS_ONLY").map(|v| v == "1").unwrap_or(false) { 1024 } else { 32 })
+}
 const GUARD8: u8 = 0x5C;
 const GUARD16: u16 = 0x5C5C;
 
@@ -163,9 +171,9 @@ const GUARD16: u16 = 0x5C5C;
 /// address % 16 == (align * unit) % 16.
 pub fn aligned_lo(base: usize, unit: usize, align: usize) -> usize {
     let want = (align * unit) % 16;
-    let at_guard = (base + GUARD * unit) % 16;
+    let at_guard = (base + GUARD() * unit) % 16;
     let delta_bytes = (want + 16 - at_guard) % 16;
-    GUARD + delta_bytes / unit
+    GUARD() + delta_bytes / unit
 }
 
 /// Copies `src` into a fresh allocation so that it starts at address % 16 == align and ends at
@@ -214,7 +222,7 @@ pub fn call_decoder(dec: &mut Decoder, sink: Sink, repl: bool, src: &[u8], last:
     let cap = d.cap;
     let r = catch_unwind(AssertUnwindSafe(|| match sink {
         Sink::Utf8 => {
-            let mut buf = vec![GUARD8; GUARD + 16 + cap + GUARD];
+            let mut buf = vec![GUARD8; GUARD() + 16 + cap + GUARD()];
             let lo = aligned_lo(buf.as_ptr() as usize, 1, d.align);
             for x in &mut buf[lo..lo + cap] {
                 *x = d.fill;
@@ -244,7 +252,7 @@ pub fn call_decoder(dec: &mut Decoder, sink: Sink, repl: bool, src: &[u8], last:
             }
         }
         Sink::Utf16 => {
-            let mut buf = vec![GUARD16; GUARD + 16 + cap + GUARD];
+            let mut buf = vec![GUARD16; GUARD() + 16 + cap + GUARD()];
             let lo = aligned_lo(buf.as_ptr() as usize, 2, d.align);
             let f16 = (d.fill as u16) << 8 | d.fill as u16;
             for x in &mut buf[lo..lo + cap] {
@@ -466,7 +474,7 @@ pub fn call_encoder(
     let cap = d.cap;
     let r = catch_unwind(AssertUnwindSafe(|| match sink {
         ESink::Slice => {
-            let mut buf = vec![GUARD8; GUARD + 16 + cap + GUARD];
+            let mut buf = vec![GUARD8; GUARD() + 16 + cap + GUARD()];
             let lo = aligned_lo(buf.as_ptr() as usize, 1, d.align);
             for x in &mut buf[lo..lo + cap] {
                 *x = d.fill;
